@@ -62,8 +62,14 @@ MonCall(M, c) ==
   CASE c.c \in {"dial", "open"} ->
          IF c.cid \in DOMAIN M.att THEN Fail(M, "attempt id reused")
          ELSE IF M.stim.a \notin {"dial", "dial_addr", "hdial", "hdial_addr", "probe"} THEN Fail(M, "dial without request")
-         ELSE [M EXCEPT !.att = (c.cid :> [st |-> "open", peer |-> M.stim.p, addrs |-> c.addrs, by |-> -1]) @@ @,
-                        !.newAtt = TRUE]
+         ELSE \* a fresh attempt for a tainted peer shows the peer is not wedged: trust it again,
+              \* its already reported attempts are closed in the ledger
+              LET p == M.stim.p
+                  old == [d \in DOMAIN M.att |->
+                            IF Tainted(M, p) /\ M.att[d].peer = p /\ M.att[d].st \in {"open", "cancelled"}
+                              THEN [M.att[d] EXCEPT !.st = "reported"] ELSE M.att[d]] IN
+              [M EXCEPT !.att = (c.cid :> [st |-> "open", peer |-> p, addrs |-> c.addrs, by |-> -1]) @@ old,
+                        !.newAtt = TRUE, !.taint = @ \ {p}]
     [] c.c = "cancel" ->
          IF c.cid \in DOMAIN M.att /\ M.att[c.cid].st = "open"
            THEN \* an opening attempt may only be abandoned in favour of a connection with that
